@@ -72,6 +72,76 @@ pub open spec fn cur_ok<'a>(it: Option<Iter<'a, (usize, TextSelectionHandle)>>) 
     match it { Some(i) => i.obeys_prophetic_iter_laws() && i.decrease() is Some, None => true }
 }
 
+// ------------------------------------------------------------------ "each indexed selection once" (the walk assumption of u_find)
+/// what the position index says under one position (established by StoreCallbacks<TextSelection>::inserted, u_posidx):
+/// begin2end lists exactly the selections that begin there, end2begin exactly those that end there, each once
+pub open spec fn entry_exact(e: (usize, PositionIndexItem), res: &TextResource) -> bool {
+    (forall|h: TextSelectionHandle| #[trigger] handles_of(e.1.begin2end@).to_multiset().count(h) == (if res.sel(h) is Some && res.sel(h).unwrap().begin == e.0 { 1nat } else { 0nat }))
+    && (forall|h: TextSelectionHandle| #[trigger] handles_of(e.1.end2begin@).to_multiset().count(h) == (if res.sel(h) is Some && res.sel(h).unwrap().end == e.0 { 1nat } else { 0nat }))
+}
+pub open spec fn entries_ok(rem: Seq<(usize, PositionIndexItem)>, res: &TextResource) -> bool {
+    (forall|i: int| 0 <= i < rem.len() ==> entry_exact(#[trigger] rem[i], res))
+    && (forall|i: int, j: int| 0 <= i < j < rem.len() ==> rem[i].0 < rem[j].0)
+}
+pub open spec fn has_key(rem: Seq<(usize, PositionIndexItem)>, p: usize) -> bool { exists|i: int| 0 <= i < rem.len() && rem[i].0 == p }
+
+/// a forward walk over index entries yields every selection that begins at one of their positions exactly once, and nothing else
+pub proof fn lemma_forward_each_once(rem: Seq<(usize, PositionIndexItem)>, res: &TextResource, h: TextSelectionHandle)
+    requires entries_ok(rem, res),
+    ensures flat_b2e(rem).to_multiset().count(h) == (if res.sel(h) is Some && has_key(rem, res.sel(h).unwrap().begin) { 1nat } else { 0nat }),
+    decreases rem.len(),
+{
+    if rem.len() == 0 {
+        assert(flat_b2e(rem) =~= Seq::<TextSelectionHandle>::empty());
+        vstd::seq_lib::to_multiset_contains(flat_b2e(rem), h);
+        assert(!has_key(rem, if res.sel(h) is Some { res.sel(h).unwrap().begin } else { 0usize }));
+    } else {
+        let rest = rem.skip(1);
+        assert forall|i: int| 0 <= i < rest.len() implies entry_exact(#[trigger] rest[i], res) by { assert(rest[i] == rem[i + 1]); }
+        assert forall|i: int, j: int| 0 <= i < j < rest.len() implies rest[i].0 < rest[j].0 by { assert(rest[i] == rem[i + 1] && rest[j] == rem[j + 1]); }
+        lemma_forward_each_once(rest, res, h);
+        let a = handles_of(rem[0].1.begin2end@);
+        vstd::seq_lib::lemma_multiset_commutative(a, flat_b2e(rest));
+        assert(flat_b2e(rem) == a + flat_b2e(rest));
+        assert(flat_b2e(rem).to_multiset().count(h) == a.to_multiset().count(h) + flat_b2e(rest).to_multiset().count(h));
+        assert(entry_exact(rem[0], res));
+        if res.sel(h) is Some {
+            let p = res.sel(h).unwrap().begin;
+            if has_key(rest, p) { let i = choose|i: int| 0 <= i < rest.len() && rest[i].0 == p; assert(rem[i + 1].0 == p); assert(rem[0].0 < rem[i + 1].0); }
+            if has_key(rem, p) && rem[0].0 != p { let i = choose|i: int| 0 <= i < rem.len() && rem[i].0 == p; assert(rest[i - 1].0 == p); }
+            if rem[0].0 == p { assert(has_key(rem, p)); }
+        }
+    }
+}
+/// a backward walk yields every selection that ends at one of the positions exactly once
+pub proof fn lemma_backward_each_once(rem: Seq<(usize, PositionIndexItem)>, res: &TextResource, h: TextSelectionHandle)
+    requires entries_ok(rem, res),
+    ensures flat_e2b_back(rem).to_multiset().count(h) == (if res.sel(h) is Some && has_key(rem, res.sel(h).unwrap().end) { 1nat } else { 0nat }),
+    decreases rem.len(),
+{
+    if rem.len() == 0 {
+        assert(flat_e2b_back(rem) =~= Seq::<TextSelectionHandle>::empty());
+        vstd::seq_lib::to_multiset_contains(flat_e2b_back(rem), h);
+        assert(!has_key(rem, if res.sel(h) is Some { res.sel(h).unwrap().end } else { 0usize }));
+    } else {
+        let rest = rem.drop_last();
+        assert forall|i: int| 0 <= i < rest.len() implies entry_exact(#[trigger] rest[i], res) by { assert(rest[i] == rem[i]); }
+        assert forall|i: int, j: int| 0 <= i < j < rest.len() implies rest[i].0 < rest[j].0 by { assert(rest[i] == rem[i] && rest[j] == rem[j]); }
+        lemma_backward_each_once(rest, res, h);
+        let a = handles_of(rem.last().1.end2begin@);
+        vstd::seq_lib::lemma_multiset_commutative(a, flat_e2b_back(rest));
+        assert(flat_e2b_back(rem) == a + flat_e2b_back(rest));
+        assert(flat_e2b_back(rem).to_multiset().count(h) == a.to_multiset().count(h) + flat_e2b_back(rest).to_multiset().count(h));
+        assert(entry_exact(rem[rem.len() - 1], res));
+        if res.sel(h) is Some {
+            let p = res.sel(h).unwrap().end;
+            if has_key(rest, p) { let i = choose|i: int| 0 <= i < rest.len() && rest[i].0 == p; assert(rem[i].0 == p); assert(rem[i].0 < rem[rem.len() - 1].0); }
+            if has_key(rem, p) && rem.last().0 != p { let i = choose|i: int| 0 <= i < rem.len() && rem[i].0 == p; assert(rest[i].0 == p); }
+            if rem.last().0 == p { assert(rem[rem.len() - 1].0 == p); assert(has_key(rem, p)); }
+        }
+    }
+}
+
 impl<'a> TextSelectionIter<'a> {
     /// what `next()` will still yield, in order
     #[verifier::prophetic]
